@@ -9,6 +9,7 @@
 (*   joined                    WELCOME is being delivered                  *)
 (*   left                      the router's GOODBYE reply is being delivered*)
 (*   stop    point             stop() is being called                      *)
+(*   lost    k                 the driver takes attempt k's connection away*)
 (*   done    how               the start() result was seen completed       *)
 (*   end     obs               final observations                          *)
 (* transport_check (Check) is not observable by itself: it is a silent     *)
@@ -18,48 +19,54 @@ EXTENDS Component, Json, IOUtils, TLC, TLCExt, SequencesExt
 Traces == JsonDeserialize(IOEnv.TRACE_FILE)
 N == Len(Traces)
 ASSUME \A i \in 1..N : TLCSet(i, 0)
-VARIABLES tid, l, maxd, hist
+VARIABLES tid, l, maxd, hist, owed
 \* hist: per connection attempt, what became of it: "open" | "refused" | "hsfail" | "abort" | "joined" | "ended"
-tvars == <<vars, tid, l, maxd, hist>>
+\* owed: the transport of the attempt in flight was just lost while start() is pending: the next event must be its failure
+tvars == <<vars, tid, l, maxd, hist, owed>>
 E == Traces[tid][l]
 Ev(name) == l <= Len(Traces[tid]) /\ E.ev = name /\ l' = l + 1 /\ UNCHANGED tid
-Same == UNCHANGED <<maxd, hist>>
+Same == UNCHANGED <<maxd, hist, owed>>
 
-TInit == /\ tid \in 1..N /\ l = 1 /\ maxd = <<>> /\ hist = <<>>
+TInit == /\ tid \in 1..N /\ l = 1 /\ maxd = <<>> /\ hist = <<>> /\ owed = FALSE
          /\ T = Traces[tid][1].n /\ MaxRetries = Traces[tid][1].mr /\ HasMain = Traces[tid][1].hasMain
          /\ attempts = [t \in 1..T |-> 0] /\ perm = [t \in 1..T |-> FALSE] /\ cursor = 1 /\ phase = "init"
          /\ cand = 0 /\ first = FALSE /\ done = "pending" /\ stopping = FALSE /\ total = 0 /\ stale = FALSE
 
-TStart == Ev("start") /\ Start /\ maxd' = E.maxdelay_ms /\ UNCHANGED hist
+TStart == Ev("start") /\ Start /\ maxd' = E.maxdelay_ms /\ UNCHANGED <<hist, owed>>
 TCheck == Check /\ UNCHANGED <<tid, l>> /\ Same /\ l <= Len(Traces[tid]) /\ E.ev \in {"attempt", "done", "end", "stop"}
 TAttempt == /\ Ev("attempt") /\ Fire /\ cand = E.tr
             /\ (first => E.delay_ms = 0)                 \* first use since the last join: without delay
             /\ E.delay_ms <= maxd[E.tr]                  \* never longer than max_retry_delay
             /\ E.att = attempts'                        \* the implementation's connect_attempts counters
-            /\ hist' = Append(hist, "open") /\ UNCHANGED maxd
+            /\ hist' = Append(hist, "open") /\ UNCHANGED <<maxd, owed>> /\ ~owed
 Cur == Len(hist)
 TFail == /\ Ev("fail") /\ Cur > 0
          /\ IF E.kind = "main_raises" THEN MainFails(E.fatal) /\ hist[Cur] = "joined"
             ELSE /\ Fail(E.fatal)
                  /\ CASE E.kind = "joined_lost" -> hist[Cur] = "joined"
                       [] OTHER -> hist[Cur] = "open"
-         /\ hist' = [hist EXCEPT ![Cur] = IF hist[Cur] = "joined" THEN "ended" ELSE E.kind] /\ UNCHANGED maxd
-TJoined == Ev("joined") /\ Join /\ Cur > 0 /\ hist[Cur] = "open" /\ hist' = [hist EXCEPT ![Cur] = "joined"] /\ UNCHANGED maxd
+         /\ hist' = [hist EXCEPT ![Cur] = IF hist[Cur] = "joined" THEN "ended" ELSE E.kind] /\ UNCHANGED maxd /\ owed' = FALSE
+TJoined == Ev("joined") /\ Join /\ Cur > 0 /\ hist[Cur] = "open" /\ hist' = [hist EXCEPT ![Cur] = "joined"] /\ UNCHANGED <<maxd, owed>> /\ ~owed
 \* When stop() was called while a connection was being established, start()'s result is already complete (and cleared) by
 \* the time that session leaves: the code's session_done then raises on the cleared future and the loop carries on as after
 \* a failure (a "fail" event follows).  The property does not speak about attempts after stop(), so both continuations are
 \* admitted here: the loop ends with the leave, or the leave is left to the following "fail" event.
 TLeft == /\ Ev("left") /\ Cur > 0 /\ hist[Cur] = "joined"
+         /\ ~owed /\ UNCHANGED owed
          /\ \/ Leave /\ hist' = [hist EXCEPT ![Cur] = "ended"] /\ UNCHANGED maxd
-            \/ done # "pending" /\ UNCHANGED vars /\ Same
-TStop == Ev("stop") /\ Stop /\ Same
+            \/ done # "pending" /\ UNCHANGED vars /\ UNCHANGED <<maxd, hist>>
+TStop == Ev("stop") /\ Stop /\ Same /\ ~owed
+\* the driver takes the TCP connection of attempt E.k away.  If that attempt is the one in flight, has not failed or ended
+\* yet and start() is still pending, the component must notice: its failure is owed as the very next event.
+TLostStim == /\ Ev("lost") /\ UNCHANGED vars /\ UNCHANGED <<maxd, hist>> /\ ~owed
+             /\ owed' = (E.k + 1 = Cur /\ hist[Cur] \in {"open", "joined"} /\ done = "pending" /\ phase \in {"connecting", "joined"})
 TDone == Ev("done") /\ done = E.how /\ UNCHANGED vars /\ Same
 \* listeners: every session the component created saw connect .. disconnect, each once
 Expected(h) == CASE h = "abort" -> {"connect", "leave", "disconnect"}
                  [] h \in {"ended", "joined"} -> {"connect", "join", "ready", "leave", "disconnect"}
                  [] OTHER -> {}
 Sessions == SelectSeq(hist, LAMBDA h : Expected(h) # {})
-TEnd == /\ Ev("end") /\ UNCHANGED vars /\ Same
+TEnd == /\ Ev("end") /\ UNCHANGED vars /\ Same /\ ~owed
         /\ E.obs.esc = ""
         /\ E.obs.done = done
         /\ E.obs.doneCount = (IF done = "pending" THEN 0 ELSE 1)
@@ -68,7 +75,7 @@ TEnd == /\ Ev("end") /\ UNCHANGED vars /\ Same
         /\ \A i \in 1..Len(Sessions) : /\ ToSet(E.obs.listeners[i]) = Expected(Sessions[i])
                                        /\ Len(E.obs.listeners[i]) = Cardinality(Expected(Sessions[i]))
         /\ (done = "pending" => (phase \in {"delay", "connecting", "joined", "check"}))
-TNext == TStart \/ TCheck \/ TAttempt \/ TFail \/ TJoined \/ TLeft \/ TStop \/ TDone \/ TEnd
+TNext == TLostStim \/ TStart \/ TCheck \/ TAttempt \/ TFail \/ TJoined \/ TLeft \/ TStop \/ TDone \/ TEnd
 TraceSpec == TInit /\ [][TNext]_tvars
 Progress == TLCSet(tid, IF TLCGet(tid) < l THEN l ELSE TLCGet(tid))
 Post ==
